@@ -170,13 +170,14 @@ fn rx_thread(shared: &Shared, park: bool, mut rx: Receiver, w: Arc<CountWaker>) 
     shared.barrier.wait();
     loop {
         polls += 1;
+        // wake count BEFORE the poll: a wake that arrives at any time after the poll started counts
+        let c0 = w.count();
         match Pin::new(&mut rx).poll(&mut cx) {
             Poll::Ready(()) => {
                 shared.ready_seen.store(true, Ordering::SeqCst);
                 return (rx, RxEnd::Ready, polls);
             }
             Poll::Pending => {
-                let c0 = w.count();
                 if park {
                     loop {
                         if w.count() > c0 {
